@@ -254,18 +254,23 @@ namespace embedded_pairing::wkdibe {
         int x = 0;
         for (int i = 0; i != parent.l; i++) {
             int idx = parent.b[i].idx;
-            while (j != from.length && from.attrs[j].idx < idx && !from.attrs[j].omitFromKeys) {
+            while (j != from.length && from.attrs[j].idx < idx) {
                 j++;
             }
-            while (k != to.length && to.attrs[k].idx < idx && !to.attrs[k].omitFromKeys) {
+            while (k != to.length && to.attrs[k].idx < idx) {
                 k++;
             }
 
-            bool sub_from = (j != from.length && from.attrs[j].idx == idx);
+            /* Is slot idx named by the lists (so it is not free in the key)? */
+            bool in_from = (j != from.length && from.attrs[j].idx == idx);
             bool add_to = (k != to.length && to.attrs[k].idx == idx);
 
-            if (j != from.length || k != to.length) {
-                if (sub_from && add_to) {
+            /* A slot that is only hidden (omitFromKeys) contributes nothing to a0. */
+            bool sub_from = in_from && !from.attrs[j].omitFromKeys;
+            bool set_to = add_to && !to.attrs[k].omitFromKeys;
+
+            if (sub_from || set_to) {
+                if (sub_from && set_to) {
                     if (!ID::equal(from.attrs[j].id, to.attrs[k].id)) {
                         id_difference(diff, to.attrs[k].id, from.attrs[j].id);
                         temp.multiply(parent.b[i].hexp, diff);
@@ -275,7 +280,7 @@ namespace embedded_pairing::wkdibe {
                     id_difference(diff, ID::zero, from.attrs[j].id);
                     temp.multiply(parent.b[i].hexp, diff);
                     sk.a0.add(sk.a0, temp);
-                } else if (add_to) {
+                } else if (set_to) {
                     temp.multiply(parent.b[i].hexp, to.attrs[k].id);
                     sk.a0.add(sk.a0, temp);
                 }
